@@ -76,7 +76,8 @@ def cases(draw, tier):
                        "min_segment_length": msl, "max_interval_length": mil,
                        "growth_factor": growth},
             "X": None, "scale2": draw(st.floats(1.0, 3.0)),
-            "n_train": None if long_series else draw(st.sampled_from([None, None, "shorter", "longer", "same_buffer"])),
+            "n_train": None if long_series else draw(st.sampled_from([None, None, "shorter", "longer", "same_buffer", "fewer_columns", "more_columns"])),
+            "dup_col": draw(st.integers(0, 5)) == 0,  # a channel stored twice (two identical columns)
             "history": None if long_series else draw(st.sampled_from(K.HISTORIES))}
     if bulk == "table":
         m = (n + 1) ** 4
@@ -94,6 +95,8 @@ def cases(draw, tier):
             X = [[v + 9.19e9 for v in row] for row in X]
         elif unit != 1.0:
             X = [[v * unit for v in row] for row in X]
+    if case.pop("dup_col") and bulk == "matrix" and p >= 2 and not cov and unit not in ("float32", "level_9e9"):
+        X = [[row[0]] + list(row[:-1]) for row in X]
     case["X"] = X
     return case
 
@@ -239,6 +242,10 @@ def _check(case, params, X, n, p, msl, mil, Xtrain, Xpred, history):
             classes.append("threshold_removed_some")
     if len(Xtrain) != n:
         classes.append("fitted_on_other_length")
+    if Xtrain.shape[1] != p:
+        classes.append("fitted_on_other_number_of_columns")
+    if p >= 2 and np.array_equal(X[:, 0], X[:, 1]) and np.ptp(X[:, 0]) > 0:
+        classes.append("duplicated_column")
     if history:
         classes.append(f"history={history}")
     if n >= 150:
